@@ -15,15 +15,22 @@ import (
 // cut into datagrams / segments that do not respect frame boundaries - the first one may begin with junk or in the middle of
 // nothing in particular: a peer is a peer whatever its first bytes are. Drain mode only: the application consumes everything, then
 // the node is closed. Judged like the in-memory scenarios (same `evcheck` op, mode `drain`).
-func runEvNet(sc evScenario, udp bool) (pre, post [][]string, note string) {
+func runEvNet(sc evScenario, kind string) (pre, post [][]string, note string) {
 	r := newRng(sc.seed)
 	k := len(sc.streams)
 	sent := refFrameBytes(sentinelFrame(sc.key))
+	udp := kind != "tcp"
 	port := freePort(udp)
 	var ep gomavlib.EndpointConf = gomavlib.EndpointTCPServer{Address: fmt.Sprintf("127.0.0.1:%d", port)}
 	proto := "tcp"
-	if udp {
+	switch kind {
+	case "udp":
 		ep = gomavlib.EndpointUDPServer{Address: fmt.Sprintf("127.0.0.1:%d", port)}
+		proto = "udp"
+	case "bcast":
+		// a broadcast endpoint has ONE channel for everybody on the network; the (single) peer talks from another address of the
+		// loopback network and - as stations of a broadcast network usually do - from the SAME port number
+		ep = gomavlib.EndpointUDPBroadcast{BroadcastAddress: fmt.Sprintf("127.255.255.255:%d", port), LocalAddress: fmt.Sprintf("127.0.0.1:%d", port)}
 		proto = "udp"
 	}
 	n := &gomavlib.Node{Endpoints: []gomavlib.EndpointConf{ep}, Dialect: getDialect(sc.dn), OutVersion: gomavlib.V2, OutSystemID: 9,
@@ -38,7 +45,14 @@ func runEvNet(sc evScenario, udp bool) (pre, post [][]string, note string) {
 	labels := map[string]int{}
 	var lmu sync.Mutex
 	for i := range peers {
-		c, err := net.Dial(proto+"4", fmt.Sprintf("127.0.0.1:%d", port))
+		var c net.Conn
+		var err error
+		if kind == "bcast" {
+			d := net.Dialer{LocalAddr: &net.UDPAddr{IP: net.IPv4(127, 0, 0, 2), Port: port}}
+			c, err = d.Dial("udp4", fmt.Sprintf("127.0.0.1:%d", port))
+		} else {
+			c, err = net.Dial(proto+"4", fmt.Sprintf("127.0.0.1:%d", port))
+		}
 		if err != nil {
 			n.Close()
 			return nil, nil, "dial-failed"
@@ -55,6 +69,20 @@ func runEvNet(sc evScenario, udp bool) (pre, post [][]string, note string) {
 	}()
 	pre = make([][]string, k)
 	post = make([][]string, k)
+	// the events themselves are kept and rendered once more when everything is over: an event (and the frame in it) belongs to the
+	// application from the moment it is delivered, whatever the node reads afterwards
+	preEv := make([][]gomavlib.Event, k)
+	postEv := make([][]gomavlib.Event, k)
+	defer func() {
+		for i := range pre {
+			for j := range pre[i] {
+				pre[i][j] = evString(preEv[i][j])
+			}
+			for j := range post[i] {
+				post[i][j] = evString(postEv[i][j])
+			}
+		}
+	}()
 	var mu sync.Mutex
 	closing := false
 	sentinels := 0
@@ -68,6 +96,9 @@ func runEvNet(sc evScenario, udp bool) (pre, post [][]string, note string) {
 			lmu.Lock()
 			i, ok := labels[evChannel(e).String()]
 			lmu.Unlock()
+			if kind == "bcast" {
+				i, ok = 0, true // the one channel of the endpoint
+			}
 			s := evString(e)
 			mu.Lock()
 			if !ok {
@@ -85,8 +116,10 @@ func runEvNet(sc evScenario, udp bool) (pre, post [][]string, note string) {
 			}
 			if closing {
 				post[i] = append(post[i], s)
+				postEv[i] = append(postEv[i], e)
 			} else {
 				pre[i] = append(pre[i], s)
+				preEv[i] = append(preEv[i], e)
 			}
 			mu.Unlock()
 			if sc.slowCons && rc.Intn(4) == 0 {
